@@ -989,6 +989,12 @@ def run_shared_uuid(case):
         "paired_snapshot": ([data.Match(uuid=_U("su:m0"), source=p, target=a.model_copy(update={"tags": [data.Tag(term=term("snap"), value="v")]}), affinity=0.5)], []),
         "target_twice": ([data.Match(uuid=_U("su:m0"), source=p, target=a, affinity=0.5), data.Match(uuid=_U("su:m1"), target=a, affinity=0.0)], ["duplicate"]),
     }
+    if case["variant"].startswith("listed_twice"):
+        # the clip annotation lists the same annotated sound event twice: it is still one sound event, to be mentioned exactly once
+        ca = data.ClipAnnotation(uuid=_U("su:CA"), clip=clip, sound_events=[a, a.model_copy()])
+        variants["listed_twice_matched_once"] = ([data.Match(uuid=_U("su:m0"), source=p, target=a, affinity=0.5)], [])
+        variants["listed_twice_matched_twice"] = ([data.Match(uuid=_U("su:m0"), source=p, target=a, affinity=0.5),
+                                                   data.Match(uuid=_U("su:m1"), target=a, affinity=0.0)], ["duplicate"])
     matches, reasons = variants[case["variant"]]
     P = Paths(out, "clip_evaluation", reasons, {"shared_uuid": True})
     obs, obj = observe(lambda: data.ClipEvaluation(uuid=_U("su:ce"), annotations=ca, predictions=cp, matches=matches))
@@ -1005,7 +1011,7 @@ def run_shared_uuid(case):
     return out
 
 
-SHARED_UUID_VARIANTS = ["paired", "paired_snapshot", "both_unmatched", "only_target", "only_source", "foreign_pair", "target_twice"]
+SHARED_UUID_VARIANTS = ["paired", "paired_snapshot", "both_unmatched", "only_target", "only_source", "foreign_pair", "target_twice", "listed_twice_matched_once", "listed_twice_matched_twice"]
 
 
 def default_sites():
